@@ -166,20 +166,22 @@ inductive StepKind (c : MvccCfg) (s : St) (op : Op) (r : St × Out) : Prop where
   | commit (t : Txn) (hw : t.writes ≠ []) (h1 : r.1.store = entriesOf t.writes s.nextTs ++ s.store)
       (h2 : r.1.log = { ts := s.nextTs, readTs := t.readTs, writes := t.writes, rlog := t.rlog } :: s.log)
       (h3 : r.1.nextTs = s.nextTs + 1) (ho : r.2 = .ok)
+      (id : Nat) (hg : getTxn s id = some t) (hd : t.discarded = false) (hop : op = .commit id)
   | reopened (hop : op = .reopen) (hs : r.1 = reopenDB c s)
 
-theorem commitTxn_kind (c : MvccCfg) (s : St) (op : Op) (id : Nat) (t : Txn) (io : Bool) : StepKind c s op (commitTxn c s id t io) := by
+theorem commitTxn_kind (c : MvccCfg) (s : St) (op : Op) (id : Nat) (t : Txn) (io : Bool)
+    (hg : getTxn s id = some t) (hopio : io = false → op = .commit id) : StepKind c s op (commitTxn c s id t io) := by
   by_cases hd : t.discarded = true
   · unfold commitTxn; simp only [hd, if_true]; exact .same rfl rfl rfl
   · by_cases hw : t.writes = []
     · unfold commitTxn; simp only [hd, hw, if_true, if_false, Bool.false_eq_true]
       exact .same (by simp) (by simp) (by simp)
     · have hd' : t.discarded = false := by simpa using hd
-      rcases commitTxn_cases c s id t io hd' hw with ⟨_, hs, _⟩ | ⟨ho, hs⟩ | ⟨ho, _, _, hs⟩
+      rcases commitTxn_cases c s id t io hd' hw with ⟨_, hs, _⟩ | ⟨ho, hs⟩ | ⟨ho, _, hio, hs⟩
       · exact .same (by rw [hs]; simp) (by rw [hs]; simp) (by rw [hs]; simp)
       · refine .burnt (by rw [hs]; simp) (by rw [hs]; simp) (by rw [hs]; simp) ?_
         rcases ho with ho | ho | ho <;> rw [ho] <;> simp
-      · exact .commit t hw (by rw [hs]; simp) (by rw [hs]; simp) (by rw [hs]; simp) ho
+      · exact .commit t hw (by rw [hs]; simp) (by rw [hs]; simp) (by rw [hs]; simp) ho id hg hd' (hopio hio)
 
 theorem step_kind (c : MvccCfg) (fp : Key → Nat) (s : St) (op : Op) : StepKind c s op (step c fp s op) := by
   cases op with
@@ -206,12 +208,12 @@ theorem step_kind (c : MvccCfg) (fp : Key → Nat) (s : St) (op : Op) : StepKind
     simp only [step]
     split
     · exact .same rfl rfl rfl
-    · exact commitTxn_kind c s _ id _ false
+    · rename_i t0 ht0; exact commitTxn_kind c s _ id t0 false ht0 (fun _ => rfl)
   | commitIO id =>
     simp only [step]
     split
     · exact .same rfl rfl rfl
-    · exact commitTxn_kind c s _ id _ true
+    · rename_i t0 ht0; exact commitTxn_kind c s _ id t0 true ht0 (fun h => by cases h)
   | scan id =>
     simp only [step]
     split
@@ -505,20 +507,52 @@ theorem getTxn_discardTxn (c : MvccCfg) (s : St) (id id' : Nat) (t : Txn) :
   · rfl
   · exact getTxn_congr (by simp) id'
 
-/-- how one step can change a transaction that stays live -/
-inductive Evolve (c : MvccCfg) (fp : Key → Nat) (t : Txn) : Txn → Prop where
-  | same : Evolve c fp t t
-  | read (k : Key) (res : Option Val) (hu : t.update = true) :
-      Evolve c fp t { t with reads := if c.trackGet then t.reads ++ [fp k] else t.reads,
-                             rkeys := k :: t.rkeys, rlog := (k, res) :: t.rlog }
-  | write (k : Key) (v : Option Val) (cnt sz : Nat) :
-      Evolve c fp t { t with count := cnt, size := sz, ckeys := addFp t.ckeys (fp k), writes := setW t.writes k v }
-  | scan (tracked : List (Key × Val × Nat)) :
-      Evolve c fp t { t with reads := t.reads ++ tracked.map (fun it => fp it.1),
-                             rkeys := tracked.map (fun it => it.1) ++ t.rkeys,
-                             rlog := tracked.map (fun it => (it.1, some it.2.1)) ++ t.rlog }
+theorem scanItem_served {s : St} {t : Txn} {k : Key} {it : Key × Val × Nat}
+    (h : scanItem s t k = some it) (hown : ownOf t it.1 = none) :
+    it.1 = k ∧ readAt s.store k t.readTs = some it.2.1 := by
+  unfold scanItem at h
+  cases ho : ownOf t k with
+  | some w =>
+    rw [ho] at h
+    cases w with
+    | none => simp at h
+    | some v =>
+      simp only [Option.some.injEq] at h
+      subst h
+      simp only at hown
+      rw [ho] at hown; cases hown
+  | none =>
+    rw [ho] at h
+    simp only at h
+    unfold readAt
+    cases hb : bestOf s.store k t.readTs with
+    | none => rw [hb] at h; simp at h
+    | some e =>
+      rw [hb] at h
+      simp only at h
+      cases hv : e.val with
+      | none => rw [hv] at h; simp at h
+      | some v =>
+        rw [hv] at h
+        simp only [Option.some.injEq] at h
+        subst h
+        exact ⟨rfl, by simp [hv]⟩
 
-theorem Evolve.fixed {c : MvccCfg} {fp : Key → Nat} {t t' : Txn} (h : Evolve c fp t t') :
+/-- how one step can change a transaction that stays live -/
+inductive Evolve (c : MvccCfg) (fp : Key → Nat) (s : St) (t : Txn) : Txn → Prop where
+  | same : Evolve c fp s t t
+  | read (k : Key) (hu : t.update = true) :
+      Evolve c fp s t { t with reads := if c.trackGet then t.reads ++ [fp k] else t.reads,
+                               rkeys := k :: t.rkeys, rlog := (k, readAt s.store k t.readTs) :: t.rlog }
+  | write (k : Key) (v : Option Val) (cnt sz : Nat) :
+      Evolve c fp s t { t with count := cnt, size := sz, ckeys := addFp t.ckeys (fp k), writes := setW t.writes k v }
+  | scan (tracked served : List (Key × Val × Nat)) (h1 : ∀ it ∈ served, it ∈ tracked)
+      (h2 : ∀ it ∈ served, readAt s.store it.1 t.readTs = some it.2.1) :
+      Evolve c fp s t { t with reads := t.reads ++ tracked.map (fun it => fp it.1),
+                               rkeys := tracked.map (fun it => it.1) ++ t.rkeys,
+                               rlog := served.map (fun it => (it.1, some it.2.1)) ++ t.rlog }
+
+theorem Evolve.fixed {c : MvccCfg} {fp : Key → Nat} {s : St} {t t' : Txn} (h : Evolve c fp s t t') :
     t'.readTs = t.readTs ∧ t'.tag = t.tag ∧ t'.update = t.update ∧ t'.doneRead = t.doneRead ∧
     t'.discarded = t.discarded := by
   cases h <;> exact ⟨rfl, rfl, rfl, rfl, rfl⟩
@@ -527,12 +561,12 @@ theorem Evolve.fixed {c : MvccCfg} {fp : Key → Nat} {t t' : Txn} (h : Evolve c
 read or a write of its own), or it was just begun. -/
 theorem step_live (c : MvccCfg) (fp : Key → Nat) (s : St) (op : Op) (id : Nat) (t' : Txn)
     (h : Live (step c fp s op).1 id t') :
-    (∃ t, Live s id t ∧ Evolve c fp t t') ∨
+    (∃ t, Live s id t ∧ Evolve c fp s t t') ∨
     (∃ upd, op = .begin id upd ∧
        t' = { update := upd, readTs := s.nextTs - c.readTsOff, reads := [], ckeys := [], writes := [], count := 1,
               size := 0, discarded := false, doneRead := false, tag := s.nextTag, rkeys := [], rlog := [] }) := by
   obtain ⟨hg, hd⟩ := h
-  have keep : ∀ {Q : Prop}, getTxn s id = some t' → (∃ t, Live s id t ∧ Evolve c fp t t') ∨ Q :=
+  have keep : ∀ {Q : Prop}, getTxn s id = some t' → (∃ t, Live s id t ∧ Evolve c fp s t t') ∨ Q :=
     fun hg' => Or.inl ⟨t', ⟨hg', hd⟩, .same⟩
   cases op with
   | begin id0 upd =>
@@ -564,7 +598,7 @@ theorem step_live (c : MvccCfg) (fp : Key → Nat) (s : St) (op : Op) (id : Nat)
             by_cases hu : t0.update = true
             · rw [if_pos hu] at hg
               subst hg
-              exact Or.inl ⟨t0, ⟨ht0, by simpa using hd⟩, .read k _ hu⟩
+              exact Or.inl ⟨t0, ⟨ht0, by simpa using hd⟩, .read k hu⟩
             · rw [if_neg hu] at hg
               subst hg
               exact Or.inl ⟨t0, ⟨ht0, hd⟩, .same⟩
@@ -608,7 +642,17 @@ theorem step_live (c : MvccCfg) (fp : Key → Nat) (s : St) (op : Op) (id : Nat)
           · subst hid
             simp only [if_true, Option.some.injEq] at hg
             subst hg
-            exact Or.inl ⟨t0, ⟨ht0, by simpa using hd⟩, .scan _⟩
+            refine Or.inl ⟨t0, ⟨ht0, by simpa using hd⟩, .scan _ _ (fun it hit => (List.mem_filter.mp hit).1) ?_⟩
+            intro it hit
+            obtain ⟨htr, hown⟩ := List.mem_filter.mp hit
+            have hown' : ownOf t0 it.1 = none := by simpa using hown
+            have hitems : it ∈ ((t0.writes.map (·.1) ++ s.store.map (·.key)).foldr insertKey []).filterMap (scanItem s t0) := by
+              by_cases hu : t0.update = true
+              · rw [if_pos hu] at htr; exact (List.mem_filter.mp htr).1
+              · rw [if_neg hu] at htr; cases htr
+            obtain ⟨k', _, hk'⟩ := List.mem_filterMap.mp hitems
+            obtain ⟨e1, e2⟩ := scanItem_served hk' hown'
+            rw [e1]; exact e2
           · simp only [hid, if_false] at hg
             exact keep hg
   | commitIO id0 =>
@@ -617,7 +661,7 @@ theorem step_live (c : MvccCfg) (fp : Key → Nat) (s : St) (op : Op) (id : Nat)
     · exact keep hg
     · rename_i t0 ht0
       have key : ∀ (s1 : St) (t1 : Txn), s1.txns = s.txns → getTxn (discardTxn c s1 id0 t1) id = some t' →
-          (∃ t, Live s id t ∧ Evolve c fp t t') := by
+          (∃ t, Live s id t ∧ Evolve c fp s t t') := by
         intro s1 t1 htx hg1
         rw [getTxn_discardTxn] at hg1
         by_cases hid : id0 = id
@@ -644,7 +688,7 @@ theorem step_live (c : MvccCfg) (fp : Key → Nat) (s : St) (op : Op) (id : Nat)
     · exact keep hg
     · rename_i t0 ht0
       have key : ∀ (s1 : St) (t1 : Txn), s1.txns = s.txns → getTxn (discardTxn c s1 id0 t1) id = some t' →
-          (∃ t, Live s id t ∧ Evolve c fp t t') := by
+          (∃ t, Live s id t ∧ Evolve c fp s t t') := by
         intro s1 t1 htx hg1
         rw [getTxn_discardTxn] at hg1
         by_cases hid : id0 = id
